@@ -397,15 +397,17 @@ func GetTopLevelMethodT(
 		return methodT
 	}
 
+	// the class's own instance method, public or private, before a class
+	// method of the same name
 	methodT, ok =
-		TFrame[classMethodTFrameKey(frame, class, method, false)]
+		TFrame[methodTFrameKey(frame, class, method, true)]
+
 	if ok {
 		return methodT
 	}
 
 	methodT, ok =
-		TFrame[methodTFrameKey(frame, class, method, true)]
-
+		TFrame[classMethodTFrameKey(frame, class, method, false)]
 	if ok {
 		return methodT
 	}
